@@ -45,9 +45,15 @@ class Report:
         self.extra = {}
         self.signatures = set()
         self._okset = set()
+        self.only_rules = None   # when set: verdicts of other rules are ignored (rule sets shared between properties)
+
+    def _skip(self, rule):
+        return self.only_rules is not None and rule not in self.only_rules and rule not in ("engine", "parse")
 
     # ------------------------------------------------------------------ verdicts
     def ok(self, rule, construct, detail="", sample=None, sig=None):
+        if self._skip(rule):
+            return
         key = (rule, construct, _norm(detail))
         if key in self._okset:
             return
@@ -65,6 +71,8 @@ class Report:
 
     def violate(self, rule, construct, detail, where=None, expected=None, found=None):
         """construct: qualified name; detail: normalised (no line numbers)."""
+        if self._skip(rule):
+            return
         self._count(rule)
         self.violations.append({
             "property": self.prop, "rule": rule, "construct": construct,
@@ -74,10 +82,14 @@ class Report:
         })
 
     def unrec(self, rule, construct, why):
+        if self._skip(rule):
+            return
         self._count(rule)
         self.unrecognised.append((rule, construct, _norm(why)))
 
     def info(self, rule, construct, text):
+        if self._skip(rule):
+            return
         self.infos.append((rule, construct, _norm(text)))
 
     def _count(self, rule):
